@@ -322,6 +322,20 @@ class ResolverMixin:  # pylint: disable=too-few-public-methods
                                  qualifier_store,
                                  propagate=propagated)
 
+        # Resolve the qualifiers of the parameters of a method, against the
+        # same-named parameters of the overridden method if there is one.
+        if isinstance(new_obj, CIMMethod):
+            for pname, param in new_obj.parameters.items():
+                inherited_param = None
+                if inherited_obj and pname in inherited_obj.parameters:
+                    inherited_param = inherited_obj.parameters[pname]
+                self._resolve_qualifiers(
+                    param.qualifiers,
+                    inherited_param.qualifiers if inherited_param else None,
+                    new_class, superclass, pname, 'Parameter',
+                    qualifier_store,
+                    propagate=inherited_param is not None)
+
     def _resolve_qualifiers(self, new_quals, inherited_quals, new_class,
                             super_class, obj_name, obj_type, qualifier_store,
                             propagate=False):
